@@ -73,3 +73,15 @@ Theorem keystore_programs_nonreentrant : programs_ok (map snd GenKeystore.lock_p
 Proof. vm_compute. reflexivity. Qed.
 Theorem keystore_programs_present : (3 <=? length GenKeystore.lock_programs)%nat = true.
 Proof. vm_compute. reflexivity. Qed.
+
+(** any number of concurrent calls, each one of the key store's exported methods, in any interleaving:
+    no reachable state is stuck *)
+Theorem keystore_calls_deadlock_free : forall calls,
+  (forall p, In p calls -> In p (map snd GenKeystore.lock_programs)) ->
+  forall s, reachable (init calls) s -> ~ stuck s.
+Proof.
+  intros calls Hin. apply nonreentrant_deadlock_free.
+  apply forallb_forall. intros p Hp.
+  pose proof keystore_programs_nonreentrant as H. unfold programs_ok in H.
+  rewrite forallb_forall in H. apply H. apply Hin. exact Hp.
+Qed.
